@@ -333,6 +333,33 @@ func profileField(prof, key string) string {
 func monitorC12(c *Ctx, r *BlockRec) {
 	b := r.Block
 	txs := allTxs(b)
+	// reach probes: asset transfers that had something to move
+	for _, d := range r.Post {
+		for k, v := range d {
+			if strings.HasPrefix(k, "equity.") && equityOf(v).Sign() > 0 {
+				c.Probe("equity_held_after_block")
+			}
+		}
+	}
+	for _, tx := range txs {
+		if tx.Type() != params.TransferAssetTx || tx.To() == nil {
+			continue
+		}
+		ta, err := types.GetTransferAsset(tx.Data())
+		if err != nil || ta.Amount == nil || ta.Amount.Sign() <= 0 {
+			continue
+		}
+		have := equityOf(r.Pre[tx.From()]["equity."+ta.AssetId.Hex()[:10]])
+		if have.Sign() > 0 && have.Cmp(ta.Amount) >= 0 {
+			c.Probe("asset_transfer_covered_by_equity")
+			switch {
+			case *tx.To() == tx.From():
+				c.Probe("asset_transfer_to_self_covered")
+			case *tx.To() == (common.Address{}):
+				c.Probe("asset_burn_covered")
+			}
+		}
+	}
 	for _, as := range r.Gen.Assets {
 		issuer := as.Issuer.Addr
 		key := "asset." + as.Code.Hex()[:10]
